@@ -47,6 +47,7 @@ fn top_loop<A, const MA: usize, const UP: bool, const GA: bool, const DE: bool, 
 ) where
     A: TestBase + BaseAllocator<Bool<GA>>,
     MinimumAlignment<MA>: SupportedMinimumAlignment,
+    for<'x> bump_scope::BumpScope<'x, A, S<MA, UP, GA, DE, SH, MCS>>: verif_harness::scope_ops::ByValueRaise,
 {
     ctx.ma_now = MA;
     loop {
@@ -194,6 +195,7 @@ fn run_trace<A, const MA: usize, const UP: bool, const GA: bool, const DE: bool,
 where
     A: TestBase + BaseAllocator<Bool<GA>>,
     MinimumAlignment<MA>: SupportedMinimumAlignment,
+    for<'x> bump_scope::BumpScope<'x, A, S<MA, UP, GA, DE, SH, MCS>>: verif_harness::scope_ops::ByValueRaise,
 {
     let h = hdr_layout::<A>();
     ctx.hsize = h.size();
@@ -275,6 +277,7 @@ fn run_trace_unallocated<A, const MA: usize, const UP: bool, const DE: bool, con
 where
     A: TestBase,
     MinimumAlignment<MA>: SupportedMinimumAlignment,
+    for<'x> bump_scope::BumpScope<'x, A, S<MA, UP, false, DE, SH, MCS>>: verif_harness::scope_ops::ByValueRaise,
 {
     let h = hdr_layout::<A>();
     ctx.hsize = h.size();
@@ -358,12 +361,13 @@ fn main() {
     for t in 0..traces {
         let tseed = master.next();
         let mut rng = Rng::new(tseed);
-        let base_kind = rng.below(3);
+        let base_kind = rng.below(4);
         // A0 runs every configuration; A8 / A64 (which change the header layout) a subset
         let ci = match base_kind {
             0 => only_cfg.unwrap_or_else(|| rng.below(CFGS.len() as u64)) as usize % CFGS.len(),
             1 => [0usize, 1, 3][rng.below(3) as usize],
-            _ => [0usize, 1, 7][rng.below(3) as usize],
+            2 => [0usize, 1, 7][rng.below(3) as usize],
+            _ => [0usize, 1][rng.below(2) as usize],
         };
         let (up, ga, de, sh, _mcs) = CFGS[ci];
         let unalloc = rng.chance(2, 3);
@@ -421,8 +425,10 @@ fn main() {
                 9 => (false, true, true, true, 64)]),
             1 => dispatch_cfg!(A8, &mut ctx, ma, ci, unalloc, [
                 0 => (true, true, true, true, 512), 1 => (false, true, true, true, 512), 3 => (false, false, true, true, 512)]),
-            _ => dispatch_cfg!(A64, &mut ctx, ma, ci, unalloc, [
+            2 => dispatch_cfg!(A64, &mut ctx, ma, ci, unalloc, [
                 0 => (true, true, true, true, 512), 1 => (false, true, true, true, 512), 7 => (false, false, false, false, 4096)]),
+            _ => dispatch_cfg!(A256, &mut ctx, ma, ci, unalloc, [
+                0 => (true, true, true, true, 512), 1 => (false, true, true, true, 512)]),
         }
         print!("{}", ctx.out);
         for (k, v) in ctx.op_hist {
